@@ -16,7 +16,7 @@ PROPS = ('property', 'lazy.prop', 'cached_property', 'abstractproperty')
 
 
 def bound_class(m: Model, it: Interp, cls: ClassRef, base=object, only=None, consulted: set | None = None, extra_ns=None,
-                with_init=False, with_eq=False, exclude=()):
+                with_init=False, with_eq=False, exclude=(), apply_decorators=()):
     """Returns a Python class (subclass of `base`) carrying one wrapper per function reachable through cls's MRO."""
     skip = set(SKIP)
     if with_init:
@@ -91,6 +91,14 @@ def bound_class(m: Model, it: Interp, cls: ClassRef, base=object, only=None, con
                 ns[n] = gen
             else:
                 ns[n] = (lambda n: (lambda s_, *a, **k: invoke(s_, n, list(a), k)))(n)
+            # decorators that are plain functions of the class's module (e.g. a locking guard) are folded and applied
+            for d in reversed(decos):
+                dn = d.split('(')[0]
+                if dn in apply_decorators:
+                    deco = next((st for st in m.trees[fref.module].body if isinstance(st, ast.FunctionDef) and st.name == dn), None)
+                    if deco is None:
+                        raise AnalysisError(f'decorator {dn} not found in {fref.module}')
+                    ns[n] = it.call(deco, [ns[n]])
     ns.update(extra_ns or {})
     ns['_invoke'] = invoke
     ns['__bound_methods__'] = tuple(sorted(names))
